@@ -537,6 +537,15 @@ func gen(seed uint64, tier string) Scenario {
 			if r.Bool(0.5) {
 				op.Path += "/" + genSeg(r)
 			}
+			if i == 0 {
+				// the first URL also becomes the request target of the HTTP tunnel's GET / POST:
+				// establishing the carrier is not part of C04 (see f.Excluded), so it gets a
+				// path without escapes or sub-delimiters
+				op.Path = "/" + genToken(r, pathChars, 1, 12)
+				if r.Bool(0.5) {
+					op.Path += "/" + genToken(r, pathChars, 1, 12)
+				}
+			}
 			if r.Bool(0.5) {
 				op.Path += "?" + genQuery(r)
 			}
@@ -771,7 +780,7 @@ var allProbes = []string{
 	"split_in_base64_quantum", "split_in_base64_padding", "split_in_ws_header", "split_ws_header_payload",
 	"big_body", "max_frame", "many_headers", "max_headers", "long_url", "long_key_or_value", "unknown_method", "url_with_userinfo",
 	"filler_between_elements", "several_elements_per_write", "several_writes_per_element",
-	"truncated_stream", "truncated_fin", "truncated_rst", "corrupted_stream", "corrupt_read_error", "corrupt_read_element", "corrupt_read_deadline",
+	"truncated_stream", "truncated_fin", "truncated_rst", "corrupted_stream", "damaged_read_error", "damaged_read_element", "damaged_read_deadline",
 	"over_limit_rejected", "over_limit_memory_checked", "at_limit_refused", "at_limit_accepted",
 	"end_to_end_client_server", "elements_compared",
 }
@@ -797,6 +806,7 @@ func init() {
 		"methods whose first two letters are not one of AN DE GE OP PA PL RE SE TE: conn.Conn.Read does not classify them as requests (unknown tokens with such a prefix are generated)",
 		"status codes outside 1..999, header keys/values and status messages with CR or LF, header keys that are not RFC tokens",
 		"wire byte flips in the client-to-server WebSocket direction (gorilla masks with math/rand: the outcome is not a function of the scenario); that direction gets truncation, message mutation and garbage",
+		"establishing the carrier in the end-to-end configuration: the first URL of a run has a path without escapes (clientTunnelHTTPRequestTarget puts the decoded path into the HTTP request line, so a first URL with %20 or %25 in its path makes the tunnel handshake fail; reported separately, not a framing matter)",
 		"requests built with a nil Header and a non-empty Body (Marshal writes Content-Length into the caller's map and panics on a nil map: caller error, not framing)",
 	}
 	f.Rule = "scenario = carrier (direct | HTTP tunnel | WebSocket) x mode. roundtrip: seeded element sequences in both directions at once (1..30 elements per direction: requests with any of the 10 methods or unknown tokens, URLs with IPv4/IPv6/host names, ports, user-info, escapes, queries, '*'; responses with any 1..999 status and default or arbitrary message; 0..255 header lines with 1..3 values per key, standard keys in arbitrary case, keys/values up to the limits, empty values; bodies 0..131072; frames 0..65535 bytes on channels 0..255; optional CR/LF/SP filler in front of an element), one Write per element, several elements per Write or several Writes per element (= base64 blocks / WebSocket messages that end inside elements), scheduler chunk mode 0..3 (1-byte reads for the small profiles); three size profiles (tiny / mixed / one element at a documented bound). truncate: FIN or RST at a seeded offset class (request line, CRLF, frame header, body, element boundary +-1, last byte, uniform). corrupt: 1..3 wire byte flips, grammar-level message mutations (peers.Mutator) or pure garbage. overlimit: an element beyond one documented limit (header count, key, value, URL, method, body length, huge Content-Length) after 0..2 good ones, with more bytes following. e2e: real Client and Server over the same three carriers, OPTIONS / DESCRIBE calls with seeded URLs, User-Agent and handler responses (status, headers, body). non-trivial = at least one element was compared (roundtrip, e2e), the fault fired (truncate, corrupt) or the over-limit element was refused after the memory checks; distinct = distinct canonical event log (scenario hash + per-read outcomes)"
